@@ -91,7 +91,8 @@ Definition f1_nsum (n : nat) : nat := (n / 2)%nat.
 Definition f1_di (terms n i : nat) : R :=
   rsum terms (fun jj => let j := INR jj + 1 in 2 * 1 / (4 * j ^ 2 - 1) * cos (2 * j * f1_theta n i)).
 Definition pts_FejerFirst (n k : nat) : R := rev n (fun i => cos (f1_theta n i)) k.
-Definition wts_FejerFirst (n k : nat) : R := rev n (fun i => 1 - f1_di (f1_nsum n - 1) n i) k * (2 / INR n).
+(* the number of series terms len(j) is read from the source on every run: FejerFirst_terms nsum (C01_gen.v) *)
+Definition wts_FejerFirst (n k : nat) : R := rev n (fun i => 1 - f1_di (FejerFirst_terms (f1_nsum n)) n i) k * (2 / INR n).
 
 (* theta = np.pi * (np.arange(npoints) + 1) / (npoints + 1); points = np.cos(theta)
    nsum = (npoints + 1) // 2; j = np.arange(nsum - 1) + 1; bj = np.ones(nsum - 1) / (2 * j - 1)
@@ -103,10 +104,10 @@ Definition f2_wi (terms n i : nat) : R :=
   rsum terms (fun jj => let j := INR jj + 1 in 1 / (2 * j - 1) * sin ((2 * j - 1) * f2_theta n i)).
 Definition pts_FejerSecond (n k : nat) : R := rev n (fun i => cos (f2_theta n i)) k.
 Definition wts_FejerSecond (n k : nat) : R :=
-  rev n (fun i => 4 * sin (f2_theta n i) * f2_wi (f2_nsum n - 1) n i) k / (INR n + 1).
+  rev n (fun i => 4 * sin (f2_theta n i) * f2_wi (FejerSecond_terms (f2_nsum n)) n i) k / (INR n + 1).
 
-(* the same two rules with the series summed to its last term (what the property needs; used to state the
-   proposed fixes: `np.arange(nsum) + 1` instead of `np.arange(nsum - 1) + 1`) *)
+(* the same two rules with the series summed to its last term, nsum terms (what the property needs: the repaired
+   constructors `j = np.arange(nsum) + 1`; the pinned code had `np.arange(nsum - 1) + 1`) *)
 Definition wts_FejerFirst_full (n k : nat) : R := rev n (fun i => 1 - f1_di (f1_nsum n) n i) k * (2 / INR n).
 Definition wts_FejerSecond_full (n k : nat) : R :=
   rev n (fun i => 4 * sin (f2_theta n i) * f2_wi (f2_nsum n) n i) k / (INR n + 1).
